@@ -1,6 +1,7 @@
 """C14 Resource exhaustion"""
 import elin
 import efreelist
+import eslotmodel
 import eoom
 import eevent
 import edbg
@@ -31,6 +32,9 @@ def run(ctx):
     ctx.explain("E-FREELIST.term: the dynamic terminal manager's gc writes the free list it built back to its state "
                 "(freed terminal slots are reusable by the retry).")
     efreelist.check_terminal_gc(ctx, F)
+    ctx.explain("E-SLOT.model: allocation sequences on a model store answer OutOfMemory exactly when no slot is left, release the new "
+                "node's children on that path, and keep answering OutOfMemory afterwards.")
+    eslotmodel.run(ctx, F)
     ctx.explain("E-FREELIST.term.link: the dynamic terminal store's free list, interpreted: gc's sweep closure links each dead slot in front "
                 "of the local head (4 -> 2 -> 7, no self-loop), the retain predicate keeps exactly the terminals whose count is not 1, "
                 "get_edge pops the head for a new value (count 2, id entered in the table) and answers OutOfMemory exactly at the "
